@@ -911,7 +911,7 @@ var c06Gates = map[string]c06Gate{
 	"runtimeState.TOTPAuthHandler":                     {kind: "mask", mask: "any", exercised: c06EffChange | c06EffSigned},
 	"runtimeState.Okta2FAuthHandler":                   {kind: "mask", mask: "any", exercised: c06EffSigned},
 	"runtimeState.oktaPushStartHandler":                {kind: "mask", mask: "any", exercised: c06EffStart},
-	"runtimeState.oktaPollCheckHandler":                {kind: "mask", mask: "any"},
+	"runtimeState.oktaPollCheckHandler":                {kind: "mask", mask: "any", exercised: c06EffStart | c06EffSigned},
 	"runtimeState.requestAwsRoleCertificateHandler":    {kind: "own", exercised: c06EffSigned},
 	"runtimeState.BootstrapOtpAuthHandler":             {kind: "mask", mask: "any", exercised: c06EffChange | c06EffSigned},
 	"runtimeState.SendAuthDocumentHandler":             {kind: "mask", mask: "webui", exercised: c06EffSigned},
@@ -1020,6 +1020,7 @@ type c06Fakes struct {
 	vipPushes  int
 	okta       *httptest.Server
 	oktaPushes int
+	oktaApprovals int // verify calls answered with the owner's approval
 }
 
 func c06VIPHandler(f *c06Fakes) http.Handler {
@@ -1785,8 +1786,8 @@ func TestVerif_C06(t *testing.T) {
 					loggedN = 255 // the access log entry was never written
 				}
 				cases = append(cases, fmt.Sprint(c06Pack([][2]int{{si, 10}, {c06MethN(method), 2}, {oc, 2}, {c06User(target), 8}, {ownN, 1}, {loggedN, 8}, {obs.effects, 4}, {dl, 6}})))
-				routeIdx = append(routeIdx, fmt.Sprintf("%d\tconfig=%s webui=%v %s %s cred=%s origin=%q referer=%q target=%q own=%v deny-list=%s -> status=%d user=%q effects=%v",
-					nRoute, cfg.name, cfg.webui, method, route.Path, s.name, o.origin, o.referer, target, own, d.name, obs.status, obs.user, c06EffNames(obs.effects)))
+				routeIdx = append(routeIdx, fmt.Sprintf("%d\tconfig=%s webui=%v %s %s handler=%s cred=%s class=%s origin=%q referer=%q target=%q own=%v deny-list=%s -> status=%d user=%q effects=%v",
+					nRoute, cfg.name, cfg.webui, method, route.Path, key, strings.ReplaceAll(s.name, " ", "_"), sclass, o.origin, o.referer, target, own, d.name, obs.status, obs.user, c06EffNames(obs.effects)))
 				nRoute++
 				p.setDeny(0)
 			}
@@ -1947,8 +1948,10 @@ func TestVerif_C06(t *testing.T) {
 	sb.WriteString("Definition c06_webui_mismatches := Eval vm_compute in mismatches webui_bad webui_cases.\nPrint c06_webui_mismatches.\n")
 	sb.WriteString("Definition wgate_cases : list wgate := [\n " + strings.Join(wgCases, ";\n ") + "].\n")
 	sb.WriteString("Definition c06_window_gate_mismatches := Eval vm_compute in mismatches wgate_bad wgate_cases.\nPrint c06_window_gate_mismatches.\n")
+	sb.WriteString("Definition c06_window_gate_violating := Eval vm_compute in mismatches wgate_violating wgate_cases.\nPrint c06_window_gate_violating.\n")
 	sb.WriteString("Definition wroute_cases : list wroute := [\n " + strings.Join(wrCases, ";\n ") + "].\n")
 	sb.WriteString("Definition c06_window_route_mismatches := Eval vm_compute in mismatches wroute_bad wroute_cases.\nPrint c06_window_route_mismatches.\n")
+	sb.WriteString("Definition c06_window_route_violating := Eval vm_compute in mismatches wroute_violating wroute_cases.\nPrint c06_window_route_violating.\n")
 	var gchunks, rchunks []string
 	for i := 0; i < len(gateCases); i += 3000 {
 		j := i + 3000
@@ -1960,12 +1963,14 @@ func TestVerif_C06(t *testing.T) {
 	}
 	sb.WriteString("Definition gate_result := Eval vm_compute in merge_chunks [" + strings.Join(gchunks, "; ") + "].\n")
 	sb.WriteString("Definition c06_gate_mismatches := Eval vm_compute in chunk_first gate_result.\nPrint c06_gate_mismatches.\n")
+	sb.WriteString("Definition c06_gate_violating := Eval vm_compute in chunk_violating gate_result.\nPrint c06_gate_violating.\n")
 	for k, g := range groups {
 		sb.WriteString(g)
 		rchunks = append(rchunks, fmt.Sprintf("rv_%d", k))
 	}
 	sb.WriteString("Definition route_result := Eval vm_compute in merge_chunks [" + strings.Join(rchunks, "; ") + "].\n")
 	sb.WriteString("Definition c06_route_mismatches := Eval vm_compute in chunk_first route_result.\nPrint c06_route_mismatches.\n")
+	sb.WriteString("Definition c06_route_violating := Eval vm_compute in chunk_violating route_result.\nPrint c06_route_violating.\n")
 	sb.WriteString("Definition c06_route_mismatch_count := Eval vm_compute in chunk_bad route_result.\nPrint c06_route_mismatch_count.\n")
 	sb.WriteString("Definition c06_gate_mismatch_count := Eval vm_compute in chunk_bad gate_result.\nPrint c06_gate_mismatch_count.\n")
 	sb.WriteString("Definition c06_ncases := Eval vm_compute in (chunk_total gate_result + chunk_total route_result).\nPrint c06_ncases.\n")
@@ -2158,7 +2163,7 @@ func c06GateCases(p *c06Prober, thorough bool, cases, idx *[]string) {
 		}
 		*cases = append(*cases, fmt.Sprintf("(%d,%d)", c06Pack([][2]int{{si, 10}, {c06MethN(method), 2}, {oc, 2}, {mask, 16}, {adm, 1}, {user, 8}, {dl, 6}}),
 			c06Pack([][2]int{{level, 16}, {code, 10}, {int(dt + 16384), 16}})))
-		*idx = append(*idx, fmt.Sprintf("%d\tcheckAuth mask=%d %s cred=%s origin=%q referer=%q deny-list=%s%v -> admitted=%d user=%d level=%d code=%d", n, mask, method, s.name, o.origin, o.referer, d.name, d.ids, adm, user, level, code))
+		*idx = append(*idx, fmt.Sprintf("%d\tcheckAuth mask=%d %s cred=%s class=%s origin=%q referer=%q deny-list=%s%v -> admitted=%d user=%d level=%d code=%d", n, mask, method, strings.ReplaceAll(s.name, " ", "_"), sclass, o.origin, o.referer, d.name, d.ids, adm, user, level, code))
 		n++
 	}
 	comboMasks := []int{0, p.webui, p.webui | AuthTypeKeymasterX509, AuthTypeAny, AuthTypeIPCertificate, AuthTypeKeymasterX509, AuthTypePassword,
@@ -2322,8 +2327,8 @@ func c06WindowCases(p *c06Prober, hit func(verifHit)) (gc, gi, rc, ri []string) 
 						Observed: map[string]interface{}{"user": ai.Username, "level": level, "clock_before_ns": b, "clock_after_ns": a, "exp_s": exp, "nbf_s": nbf}})
 				}
 				gc = append(gc, fmt.Sprintf("WG %s %d %d %d %d %d %d %d %s", wc(w, nbf, exp, iat, b, a), mask, c06MethN(method), oc, adm, user, level, code, coqZ(oiat)))
-				gi = append(gi, fmt.Sprintf("%d\tcheckAuth mask=%d %s origin=%q cred=cookie-%s (nbf=clock%+ds exp=clock%+ds iat=clock%+ds basic=%d) clock=[%d, %d]ns -> admitted=%d user=%d level=%d code=%d",
-					len(gi), mask, method, o.origin, w.name, w.nbf, w.exp, w.iat, w.basic, b, a, adm, user, level, code))
+				gi = append(gi, fmt.Sprintf("%d\tcheckAuth mask=%d %s origin=%q cred=cookie-%s class=%s (nbf=clock%+ds exp=clock%+ds iat=clock%+ds basic=%d) clock=[%d, %d]ns -> admitted=%d user=%d level=%d code=%d",
+					len(gi), mask, method, o.origin, w.name, w.class, w.nbf, w.exp, w.iat, w.basic, b, a, adm, user, level, code))
 			}
 		}
 	}
@@ -2372,8 +2377,8 @@ func c06WindowCases(p *c06Prober, hit func(verifHit)) (gc, gi, rc, ri []string) 
 				loggedN = 255
 			}
 			rc = append(rc, fmt.Sprintf("WR %s %s %d %d 0 %d %d %d", wc(w, nbf, exp, iat, b, a), coqStringLit(q.key), p.webui, c06MethN(q.method), c06User(q.target), loggedN, obs.effects))
-			ri = append(ri, fmt.Sprintf("%d\tconfig=%s %s %s cred=cookie-%s (nbf=clock%+ds exp=clock%+ds iat=clock%+ds basic=%d) target=%q clock=[%d, %d]ns -> status=%d user=%q effects=%v",
-				len(ri), p.cfgName, q.method, route.Path, w.name, w.nbf, w.exp, w.iat, w.basic, q.target, b, a, obs.status, obs.user, c06EffNames(obs.effects)))
+			ri = append(ri, fmt.Sprintf("%d\tconfig=%s %s %s handler=%s cred=cookie-%s class=%s (nbf=clock%+ds exp=clock%+ds iat=clock%+ds basic=%d) target=%q clock=[%d, %d]ns -> status=%d user=%q effects=%v",
+				len(ri), p.cfgName, q.method, route.Path, q.key, w.name, w.class, w.nbf, w.exp, w.iat, w.basic, q.target, b, a, obs.status, obs.user, c06EffNames(obs.effects)))
 		}
 	}
 	return
@@ -2509,11 +2514,22 @@ func env127() string { return "127.0.0.1" }
 
 // ---------------------------------------------------------------- fake Okta
 
+// The fake Okta authn API: every user has a TOTP factor (any pass code is right) and a push factor.
+// The state token names the user, so the fake knows whose push is verified: admin has approved the push
+// on her phone (the verify call answers SUCCESS and no new push goes out), everybody else's push is
+// sent and stays WAITING.
 func c06OktaHandler(f *c06Fakes) http.Handler {
 	return http.HandlerFunc(func(w http.ResponseWriter, r *http.Request) {
 		w.Header().Set("Content-Type", "application/json")
 		if strings.Contains(r.URL.Path, "/factors/") {
+			var in struct{ StateToken string }
+			json.NewDecoder(r.Body).Decode(&in)
 			if strings.Contains(r.URL.Path, "push1") {
+				if in.StateToken == "st-admin" {
+					f.oktaApprovals++
+					json.NewEncoder(w).Encode(map[string]interface{}{"status": "SUCCESS"})
+					return
+				}
 				f.oktaPushes++
 				json.NewEncoder(w).Encode(map[string]interface{}{"status": "MFA_CHALLENGE", "factorResult": "WAITING"})
 				return
@@ -2528,7 +2544,7 @@ func c06OktaHandler(f *c06Fakes) http.Handler {
 			json.NewEncoder(w).Encode(map[string]interface{}{"errorCode": "E0000004"})
 			return
 		}
-		json.NewEncoder(w).Encode(map[string]interface{}{"stateToken": "st", "status": "MFA_REQUIRED", "expiresAt": time.Now().Add(time.Hour).Format(time.RFC3339),
+		json.NewEncoder(w).Encode(map[string]interface{}{"stateToken": "st-" + in.Username, "status": "MFA_REQUIRED", "expiresAt": time.Now().Add(time.Hour).Format(time.RFC3339),
 			"_embedded": map[string]interface{}{"user": map[string]interface{}{"id": "1", "profile": map[string]interface{}{"login": in.Username}},
 				"factors": []map[string]interface{}{{"id": "totp1", "factorType": "token:software:totp", "provider": "OKTA", "vendorName": "OKTA"},
 					{"id": "push1", "factorType": "push", "provider": "OKTA", "vendorName": "OKTA"}}}})
